@@ -652,6 +652,30 @@ pub fn check_history(ops: &[Op]) -> Result<(), Fail> {
                 at(&format!("content {} want {} (first difference at bit {first}, bit_len {})", hex(buf.content()), hex(&want), model.len())),
             ));
         }
+        // the read views derived from the buffer (`Bits::from(&BitBuffer)`, as a reader would take
+        // it) see exactly the written bits: the last one is readable, the padding is not
+        {
+            use asn1rs::protocol::per::unaligned::buffer::Bits;
+            use asn1rs::protocol::per::unaligned::ScopedBitRead;
+            let view = Bits::from(&buf);
+            if view.len() != model.len() {
+                return Err((format!("Bits.from-BitBuffer:len"), at(&format!("Bits::from(&BitBuffer).len() = {} but {} bits were written", view.len(), model.len()))));
+            }
+            let mut view = Bits::from(&buf);
+            if !model.is_empty() {
+                let _ = view.set_pos(model.len() - 1);
+                match catch(|| view.read_bit()) {
+                    Ok(Ok(b)) if b == model[model.len() - 1] => {}
+                    other => return Err(("Bits.from-BitBuffer:last-bit".into(), at(&format!("the last written bit is not readable through Bits::from(&BitBuffer): {other:?}")))),
+                }
+            }
+            let mut view = Bits::from(&buf);
+            let _ = view.set_pos(model.len());
+            match catch(|| view.read_bit()) {
+                Ok(Err(_)) => {}
+                other => return Err(("Bits.from-BitBuffer:reads-padding".into(), at(&format!("reading behind the last written bit through Bits::from(&BitBuffer) gives {other:?} instead of Err")))),
+            }
+        }
     }
     Ok(())
 }
